@@ -84,13 +84,13 @@ func specPlain6(p *packets.FrameParser) bool {
 
 //@ func (*udpDriver).findMatchingProbe
 //@ inline
-//@ safety C09
+//@ safety C09 C14
 //@ requires[pre.nonnil]  u != nil
 //@ ensures[C05.find]     ret1 == has(u.sentProbes, probeID) && ret0 == u.sentProbes[probeID]
 //@ modifies u.mu
 
 //@ func (*udpDriver).handleProbeLayers
-//@ safety C09
+//@ safety C09 C14
 //@ requires[pre.nonnil]     u != nil && u.parser != nil && u.config != nil
 //@ requires[pre.parsed]     packets.SpecParsed(u.parser)
 //@ requires[pre.past]       forall(k, 0, 65536, u.sentProbes[k].sendTime <= now())
@@ -143,11 +143,11 @@ func specProbeID(u *udpDriver, ttl uint8) uint16 {
 
 //@ func (*udpDriver).storeProbe
 //@ inline
-//@ safety C06
+//@ safety C06 C14
 //@ requires[pre.nonnil]   u != nil && u.sentProbes != nil
 
 //@ func (*udpDriver).SendProbe
-//@ safety C06 C05
+//@ safety C06 C05 C14
 //@ requires[pre.nonnil]   u != nil && u.sink != nil && u.sentProbes != nil && u.config != nil && u.config.buffer != nil
 //@ requires[C10.send.open]  selb(isOpen, ref(u.sink))
 //@ requires[pre.past]     forall(k, 0, 65536, u.sentProbes[k].sendTime <= now())
@@ -165,7 +165,7 @@ func specProbeID(u *udpDriver, ttl uint8) uint16 {
 //@ modifies u.mu, map(u.sentProbes), UDPv4.buffer, ghost clock, ghost wrN, ghost wrClock
 
 //@ func (*udpDriver).ReceiveProbe
-//@ safety C09
+//@ safety C09 C14
 //@ requires[pre.nonnil]     u != nil && u.source != nil && u.parser != nil && u.parser.parserv4 != nil && u.parser.parserv6 != nil && u.config != nil
 //@ requires[C10.recv.open]  selb(isOpen, ref(u.source))
 //@ requires[pre.past]       forall(k, 0, 65536, u.sentProbes[k].sendTime <= now())
